@@ -283,7 +283,7 @@ func runC16(run *Run, replay string) {
 	}
 	for bi := 0; bi < bases; bi++ {
 		r := rand.New(rand.NewSource(subSeed(run.Res.Seed, bi)))
-		for _, sc := range genScenarios(r, ScenarioOpts{Histories: 2, Inject: bi%3 == 1, Gen: GenOpts{Degenerate: bi%5 == 4}}) {
+		for _, sc := range genScenarios(r, ScenarioOpts{Histories: 2, Inject: bi%3 == 1, Gen: GenOpts{Degenerate: bi%5 == 4, DynFocus: bi%6 == 5}}) {
 			n := mergeCases(run, sc, 12)
 			run.Res.Evaluations += n
 			if n > 0 {
